@@ -94,6 +94,7 @@ func TestC12Core(t *testing.T) {
 				nseg[w] += (n + mssOf(cfg.EP[w]) - 1) / mssOf(cfg.EP[w])
 			}
 		}
+		cfg.ClockOff = 0 // the reference run starts at the origin of both spaces
 		shifted := cfg
 		shifted.SeqOff[0] = drawOffset(rt, "snA", nseg[0]+3)
 		shifted.SeqOff[1] = drawOffset(rt, "snB", nseg[1]+3)
